@@ -193,7 +193,7 @@ def main():
             na.append({"property_id": pid, "reason": f"check not built yet (planned: deterministic simulation, DESIGN.md §5 {pid})"})
     m = {
         "version": 1,
-        "setup_cmd": f"cd /verif && PYTHONHASHSEED=0 {PY} -m selftest.setup",
+        "setup_cmd": f"cd /verif && PYTHONHASHSEED=0 {PY} -m selftest.setup && PYTHONHASHSEED=0 {PY} -m selftest.determinism --seeds 40",
         "hooks": {
             "guard": "ZEROCONF_VERIF",
             "enable": "no source hook in /repo is needed: the simulator takes module-level seams from outside "
